@@ -91,6 +91,10 @@ pub enum G {
     WithState(u64, Box<G>),
     /// `(NestedDelims s e ((s1 e1) ..))`: `recovery::nested_delimiters`
     NestedDelims(u32, u32, Vec<(u32, u32)>),
+    /// `AnyRef` / `(SelectRef p f)`: `any_ref()` / `select_ref!`-style `select_ref(..)`: the by-reference primitives (`BorrowInput::next_ref`);
+    /// the model treats them as `Any` / `Select`
+    AnyRef,
+    SelectRef(Pred, Fn1),
     /// `(Padded ws a)`: `a.padded()`; `ws` = the whitespace characters of the alphabet in use (checked against `char::is_whitespace`)
     Padded(Vec<u32>, Box<G>),
 }
@@ -641,10 +645,12 @@ pub fn parse_g(tk: Tk, s: &Sexp) -> R<G> {
         ("End", []) => G::End,
         ("Empty", []) => G::Empty,
         ("Any", []) => G::Any,
+        ("AnyRef", []) => G::AnyRef,
         ("Just", [ts]) => G::Just(toks(tk, ts)?),
         ("OneOf", [ts]) => G::OneOf(toks(tk, ts)?),
         ("NoneOf", [ts]) => G::NoneOf(toks(tk, ts)?),
         ("Select", [p, f]) => G::Select(parse_pred(tk, p)?, parse_fn1(f)?),
+        ("SelectRef", [p, f]) => G::SelectRef(parse_pred(tk, p)?, parse_fn1(f)?),
         ("Custom", [ts, k]) => G::Custom(toks(tk, ts)?, nat(k)?),
         ("Map", [f, a]) => G::Map(parse_fn1(f)?, bg(a)?),
         ("MapWith", [m, a]) => G::MapWith(parse_mw(m)?, bg(a)?),
@@ -755,9 +761,9 @@ impl G {
     pub fn has_fnew(&self) -> bool {
         let new = |f: &Fn1| *f == Fn1::New;
         match self {
-            G::End | G::Empty | G::Any | G::Just(_) | G::OneOf(_) | G::NoneOf(_) | G::Custom(..) | G::Skip(_) | G::NestedDelims(..) => false,
+            G::End | G::Empty | G::Any | G::AnyRef | G::Just(_) | G::OneOf(_) | G::NoneOf(_) | G::Custom(..) | G::Skip(_) | G::NestedDelims(..) => false,
             G::JustCfg(_) | G::Var(_) => false,
-            G::Select(_, f) => new(f),
+            G::Select(_, f) | G::SelectRef(_, f) => new(f),
             G::Map(f, a) | G::TryMap(_, f, _, a) | G::TryMapWith(_, f, _, a) | G::MapCtx(f, a) => {
                 new(f) || a.has_fnew()
             }
